@@ -51,9 +51,12 @@ func init() {
 		out := [][2]any{{"uspec_QTPGrease", uint64(quic.QTPGrease)}}
 		// the PING-count range (MinPING, MaxPING) of every randomised frame builder of every
 		// built-in parrot, one entry per builder (C11_parrots_ping_stable is stated over this table)
-		var rs []string
+		var rs, bs []string
 		add := func(rf quic.QUICRandomFrames) {
 			rs = append(rs, u.Pair(u.Z(int64(rf.MinPING)), u.Z(int64(rf.MaxPING))))
+			// all seven fields, in the order of UFrames.Model.mkRF (C11_fp_frame_types_from_builder)
+			bs = append(bs, u.Pair(u.Z(int64(rf.MinPING)), u.Z(int64(rf.MaxPING)), u.Z(int64(rf.MinCRYPTO)), u.Z(int64(rf.MaxCRYPTO)),
+				u.Z(int64(rf.MinPADDING)), u.Z(int64(rf.MaxPADDING)), u.Z(int64(rf.Length))))
 		}
 		for _, nm := range parrotNames {
 			sp, err := quic.QUICID2Spec(parrotIDs[nm])
@@ -74,6 +77,7 @@ func init() {
 			}
 		}
 		out = append(out, [2]any{"uspec_parrot_ping_ranges", "list (Z * Z) := " + u.List(rs)})
+		out = append(out, [2]any{"uspec_parrot_builders", "list (Z * Z * Z * Z * Z * Z * Z) := " + u.List(bs)})
 		return out
 	})
 }
